@@ -8,9 +8,17 @@ from ..intstate import Z, NZ, norm_local
 from ..result import RuleResult, Violation
 from .idx import dim_class
 
+from .idx import ARRAYS, ROW, STRUCT, COL
+
+# the per-row / per-column arrays of the problem record are taken from the index-space table of R-IDX (one table for all rules):
+# addrow appends to every row array, addcol to every structural and internal-column array
 TARGETS = {
-    "ILLlib_addrow": ["ILLlpdata::rhs", "ILLlpdata::sense", "ILLlpdata::rangeval", "ILLlpdata::rowmap", "ILLlpdata::rownames"],
-    "ILLlib_addcol": ["ILLlpdata::obj", "ILLlpdata::lower", "ILLlpdata::upper", "ILLlpdata::structmap", "ILLlpdata::colnames", "ILLlpdata::intmarker"],
+    "ILLlib_addrow": sorted(k for k, c in ARRAYS.items() if k.startswith("ILLlpdata::") and c == ROW),
+    "ILLlib_addcol": sorted(k for k, c in ARRAYS.items() if k.startswith("ILLlpdata::") and c in (STRUCT, COL)),
+}
+REPACK = {
+    "ILLlib_delrows": sorted(k for k, c in ARRAYS.items() if k.startswith("ILLlpdata::") and c == ROW),
+    "ILLlib_delcols": sorted(k for k, c in ARRAYS.items() if k.startswith("ILLlpdata::") and c == STRUCT),
 }
 
 
@@ -123,4 +131,49 @@ def run(prog, prefix="mpq_", rule="R-APPENDINIT"):
             else:
                 res.sample({"function": fn, "array": fld.split("::")[1], "verdict": "written at the append slot on every success path (or known NULL)"}, limit=12)
         res.floor("%s: per-element arrays written at the append slot" % fn, len(seen_fields), len(fields) - 1)
+    return res
+
+
+def run_repack(prog, prefix="mpq_", rule="R-REPACK"):
+    """ILLlib_delrows / ILLlib_delcols compact every per-row / per-structural-column array of the problem: for each array of the table
+    the function contains a compaction store F[j] = F[i] (or the number copy mpq_set (F[j], F[i]); for the maps, a store into F[j] inside
+    the compaction loop).  An array that is left as it was keeps one entry per *old* column: every later reader is off by the number of
+    deleted columns."""
+    res = RuleResult(rule, "ILLlib_delrows / ILLlib_delcols contain a compaction store for every per-row / per-structural-column array of the problem")
+    for fn, fields in REPACK.items():
+        f = prog.require_fn(prefix + fn)
+        found = set()
+        # the function and the static helpers it calls (delcols_work does the compaction for ILLlib_delcols)
+        scope = [f]
+        for b, i, c in f.calls():
+            g = prog.resolve(f, c[1]) if c[1] else None
+            if g is not None and g.static and g not in scope:
+                scope.append(g)
+        for b, i, e in [x for g in scope for x in g.elements()]:
+            pairs = []
+            if e[0] == "A" and e[1][1] == "=":
+                pairs.append((e[1][2], e[1][3]))
+            elif e[0] == "C" and (callee(e[1]) or "") in ("mpq_set",) and len(e[1][3]) > 1:
+                pairs.append((e[1][3][0], e[1][3][1]))
+            for l, r in pairs:
+                pl = apath(l)
+                fl = fields_of(pl[2])
+                if not fl or "[]" not in pl[2]:
+                    continue
+                key = fl[-1].replace(prefix, "")
+                if key not in fields:
+                    continue
+                fr = fields_of(apath(r)[2])
+                if (fr and fr[-1].replace(prefix, "") == key) or key.endswith("map"):
+                    found.add(key)
+        for fld in fields:
+            res.obligations += 1
+            res.nontrivial += 1
+            if fld in found:
+                res.sample({"function": fn, "array": fld.split("::")[1], "verdict": "compacted"}, limit=12)
+            else:
+                res.violations.append(Violation(rule, "%s|%s is not compacted" % (fn, fld.split("::")[1]), f.name, short_loc(f.loc),
+                                                "%s deletes %s but contains no compaction store for %s: the array keeps one entry per old %s" % (
+                                                    fn, "rows" if "rows" in fn else "columns", fld.split("::")[1], "row" if "rows" in fn else "column")))
+        res.floor("%s: arrays of the table" % fn, len(fields), 3)
     return res
